@@ -215,6 +215,22 @@ pub fn run(args: &Args) {
             }
         }
     }
+    if args.shard == 0 {
+        for d in [json!(null), json!(true), json!(1), json!("abc"), json!({"a": [1, 2]})] {
+            for text in ["@[::0]", "@[1:2:0]", "a[::0]", "@[*][::0]"] {
+                rep.evaluations += 1;
+                match guarded(|| jmespath::compile(text).and_then(|e| e.search(rcvar_of(&d)))) {
+                    Ok(Err(e)) if err_class(&e) == "invalid-slice" => rep.count("step0_on_non_array_is_error"),
+                    // `a[::0]` / `@[*][::0]` never reach the slice when the subject before it is null / not an array
+                    Ok(Ok(v)) if v.is_null() && (text == "@[*][::0]" || (text == "a[::0]" && false)) => rep.count("slice_not_reached"),
+                    other => rep.violation(
+                        "C07/step-0-on-non-array-subject-is-not-an-error",
+                        json!({"expression": text, "document": d, "got": format!("{:?}", other.map(|r| r.map(|v| v.to_string())))}),
+                    ),
+                }
+            }
+        }
+    }
     drop(rec);
     let _ = file.flush();
     rep.extra.insert("records_file".into(), json!(path));
